@@ -613,11 +613,34 @@ var coreUse = map[string]bool{"let-inferred": true, "call-arg": true, "return": 
 	"struct-literal-field": true, "assign-target": true, "compound-target": true, "post-inc": true, "borrow": true, "borrow-mut": true}
 var coreAcc = map[string]bool{"receiver-mutref": true, "method-other-param": true, "free-local": true, "free-param-value": true}
 
+// Variants of the declaring side: the struct also has methods spelled like its fields; the using
+// module declares a type of its own with the struct's name and a method spelled like the
+// private field. Neither changes which accesses are allowed.
+const methodsNamedAsFields = "fn (q: P) prv() -> i32 { return 7; }\nfn (q: P) Pub() -> i32 { return 8; }\n"
+const localNamesake = "type P struct { .V: i32 };\nfn (x: P) prv() -> i32 { return x.V; }\nfn (x: P) Pub() -> i32 { return x.V; }\n"
+
 func genField(c *vl.Ctx) []prog {
+	out := genFieldV(c, "")
+	for _, v := range []string{"method-named-as-field", "local-namesake"} {
+		for _, p := range genFieldV(c, v) {
+			// the variants only with the field uses of the quick tier's core
+			out = append(out, p)
+		}
+	}
+	return out
+}
+
+func genFieldV(c *vl.Ctx, variant string) []prog {
 	var out []prog
-	quick := c.Quick()
+	quick := c.Quick() || variant != ""
 	for _, place := range []string{"same-module", "other-module"} {
+		if variant == "local-namesake" && place == "same-module" {
+			continue
+		}
 		for _, a := range accessors {
+			if variant == "local-namesake" && a.method {
+				continue // the namesake lives in the using module: free accessors only
+			}
 			for _, st := range fieldSites() {
 				if (st.use == useWrite || st.use == useBorrowMut) && !a.mutable {
 					continue
@@ -662,17 +685,26 @@ func genField(c *vl.Ctx) []prog {
 					if strings.Contains(host, "io::") {
 						io = "import \"std/io\";\n"
 					}
+					sd, extra, vtag := structDecl, "", ""
+					switch variant {
+					case "method-named-as-field":
+						sd += methodsNamedAsFields
+						vtag = "+methods-named-as-fields"
+					case "local-namesake":
+						extra = localNamesake
+						vtag = "+local-namesake"
+					}
 					switch {
 					case place == "same-module":
-						files["main.fer"] = io + structDecl + host + mainFooter
+						files["main.fer"] = io + sd + host + mainFooter
 					case a.method:
-						files["util.fer"] = io + structDecl + host
+						files["util.fer"] = io + sd + host
 						files["main.fer"] = "import \"proj/util\";\nfn main() { let v := util::Mk(); }\n"
 					default:
-						files["util.fer"] = structDecl
-						files["main.fer"] = io + "import \"proj/util\";\n" + host + mainFooter
+						files["util.fer"] = sd
+						files["main.fer"] = io + "import \"proj/util\";\n" + extra + host + mainFooter
 					}
-					id := fmt.Sprintf("C12/field/%s/%s/%s/%s", caseName(lower), place, a.name, st.name)
+					id := fmt.Sprintf("C12/field%s/%s/%s/%s/%s", vtag, caseName(lower), place, a.name, st.name)
 					p := prog{id: id, files: files, what: e}
 					if lower {
 						switch {
@@ -680,7 +712,7 @@ func genField(c *vl.Ctx) []prog {
 							p.expect = either
 						case !a.recv:
 							p.expect = mustReject
-							p.twin = fmt.Sprintf("C12/field/%s/%s/%s/%s", caseName(false), place, a.name, st.name)
+							p.twin = fmt.Sprintf("C12/field%s/%s/%s/%s/%s", vtag, caseName(false), place, a.name, st.name)
 						}
 					}
 					out = append(out, p)
